@@ -16,7 +16,7 @@ RULE = ("random renderable-tree specs (depth <=4: text, rule, bar, progress bar,
 ASSUMPTIONS = ["structural minimum m(spec) as defined in rv/gen/specs.py:structural_min (DESIGN section 3.4), erring upward",
                "a ProgressBar is an inline renderable (no newline): it may only be the last child of a group",
                "Text with overflow='ignore' is excluded: it is documented not to be truncated"]
-REQUIRED = ["mon.line_width", "mon.render", "mon.render_with_options_narrower_than_console", "mon.render_through_print_width"]
+REQUIRED = ["mon.render_after_edit", "mon.line_width", "mon.render", "mon.render_with_options_narrower_than_console", "mon.render_through_print_width"]
 MIN_NONTRIVIAL = {"quick": 3000, "thorough": 200000}
 
 
@@ -113,8 +113,124 @@ def wl_trees(ctx, rng, case_no):
                       {"spec": spec, "width": W, "m": m, "max_line": worst, "lines": len(lines)})
 
 
+def _edit_top(rng, spec):
+    """An edit of documented public attributes of the TOP renderable: (spec after the edit, function applying it to the
+    object built from the spec before the edit).  Only options the quantifier lists; values from the generator's ranges."""
+    from rich import box as _box
+    k = spec["k"]
+    new = dict(spec)
+    sets = []
+    if k == "table":
+        for name in rng.sample(["box", "show_edge", "show_header", "show_footer", "show_lines", "leading", "pad_edge",
+                                "collapse_padding", "padding", "expand"], rng.choice([1, 1, 2, 3])):
+            if name == "box":
+                new["box"] = rng.choice([b for b in SP.BOX_NAMES + [None] if b != spec["box"]])
+                sets.append(("box", getattr(_box, new["box"]) if new["box"] else None))
+            elif name == "leading":
+                new["leading"] = rng.choice([v for v in (0, 1, 2, 3) if v != spec["leading"]])
+                sets.append(("leading", new["leading"]))
+            elif name == "padding":
+                new["padding"] = SP.rand_pad(rng)
+                sets.append(("padding", new["padding"]))
+            else:
+                new[name] = not spec[name]
+                sets.append((name, new[name]))
+    elif k == "panel":
+        for name in rng.sample(["box", "padding", "expand"], rng.choice([1, 2])):
+            if name == "box":
+                new["box"] = rng.choice([b for b in SP.BOX_NAMES if b != spec["box"]])
+                sets.append(("box", getattr(_box, new["box"])))
+            elif name == "padding":
+                new["padding"] = SP.rand_pad(rng)
+                sets.append(("padding", new["padding"]))
+            else:
+                new["expand"] = not spec["expand"]
+                sets.append(("expand", new["expand"]))
+    elif k == "padding":
+        pad = SP.rand_pad(rng)
+        new["pad"] = pad
+        top, right, bottom, left = SP.unpack_pad(pad)
+        sets += [("top", top), ("right", right), ("bottom", bottom), ("left", left)]
+    elif k == "columns":
+        for name in rng.sample(["equal", "expand", "column_first", "right_to_left"], rng.choice([1, 2])):
+            new[name] = not spec[name]
+            sets.append((name, new[name]))
+    else:
+        return None, None
+
+    def apply(obj):
+        for name, value in sets:
+            setattr(obj, name, value)
+    return new, apply
+
+
+def wl_edited(ctx, rng, case_no):
+    """An object that has been used (measured, rendered) and is then EDITED through its public attributes before it is
+    rendered again: the bound is a statement about the object as it is when it is rendered - whatever an earlier
+    measurement or render may have left behind in it must not count."""
+    from rich.measure import Measurement
+    kind = rng.choice(["table", "table", "table", "panel", "padding", "columns"])
+    for _ in range(40):
+        spec = SP.gen_spec(rng, depth=rng.choice([1, 2, 3]), profile={"vcenter": True})
+        if spec["k"] == kind:
+            break
+    else:
+        return
+    if spec["k"] == "panel" and not spec["expand"]:
+        spec = dict(spec, expand=True)       # (Panel.fit is a constructor route of its own; the edit flips `expand`)
+    after, apply = _edit_top(rng, spec)
+    if after is None:
+        return
+    m = max(SP.structural_min(spec), SP.structural_min(after))
+    if m > 200:
+        return
+    obj = SP.build(spec)
+    for W in sorted({m, m + 1, m + 2, rng.randint(m, 200), 80}):
+        if W < m or W > 200:
+            continue
+        console = consoles.layout_console(W, legacy=False, ascii_only=False)
+        uses = []
+        for _ in range(rng.choice([1, 1, 2])):
+            use = rng.choice(["measure", "measure", "render", "fit"])
+            uses.append(use)
+            if use == "measure":
+                Measurement.get(console, obj, W)
+            elif use == "render":
+                SP.render_lines_cells(console, obj)
+            else:
+                from rich.panel import Panel
+                SP.render_lines_cells(console, Panel.fit(obj, padding=0))
+        apply(obj)
+        ctx.count("mon.render_after_edit")
+        line_widths, lines = SP.render_lines_cells(console, obj)
+        worst = max(line_widths or [0])
+        ctx.count("mon.line_width", len(line_widths))
+        if worst > W:
+            i = line_widths.index(worst)
+            ctx.violation("line-wider-than-available:object-edited-after-use:top=%s" % spec["k"],
+                          {"spec_before": spec, "spec_after": after, "uses_before_edit": uses, "width": W,
+                           "structural_min": m, "line": lines[i], "line_cells": worst})
+            break
+        ctx.case_done(("e", json.dumps(after, sort_keys=True, ensure_ascii=False, default=str), W), worst >= W or len(lines) > 3,
+                      {"spec_after": after, "width": W, "uses": uses})
+        # (the next width starts from the edited object: edit it back first, after another use)
+        spec, after = after, spec
+
+        def apply(o, _b=after):            # noqa: E731 - back to the other spec's values
+            from rich import box as _box
+            for name in ("show_edge", "show_header", "show_footer", "show_lines", "leading", "pad_edge",
+                         "collapse_padding", "padding", "expand", "equal", "column_first", "right_to_left"):
+                if name in _b and hasattr(o, name):
+                    setattr(o, name, _b[name])
+            if "box" in _b and hasattr(o, "box"):
+                o.box = getattr(_box, _b["box"]) if _b["box"] else None
+            if _b["k"] == "padding":
+                o.top, o.right, o.bottom, o.left = SP.unpack_pad(_b["pad"])
+
+
 def workloads(tier):
-    return [WL("trees", wl_trees, 300000 if tier == "thorough" else 16000)]
+    return [WL("trees", wl_trees, 300000 if tier == "thorough" else 16000),
+            WL("edited_after_use", wl_edited, 100000 if tier == "thorough" else 5000)]
 
 
 LEVEL_TEXT = ("Renders freshly built random renderable trees through the real Console.render at the structural minimum, "
